@@ -12,6 +12,11 @@ class Component:
     overlay = None       # {repo-relative dst: harness/overlay-relative src}
     with_model = True
     variants = None      # optional list of extra tag tuples (e.g. gc_opt) built and run as well
+    suffix = ""          # distinguishes binaries of components sharing a driver and tags
+
+    def prepare(self):
+        """called before the driver is built (e.g. to derive overlay sources from /repo); returns error text or None"""
+        return None
 
     def gen_args(self, tier, seed):
         """list of argument lists for `driver -mode gen ...`"""
@@ -55,14 +60,18 @@ def run(prop, components, tier, lean_targets=(), level_text="", assumptions=(), 
     for comp in components:
         tagsets = [tuple(comp.tags)] + [tuple(v) for v in (comp.variants or [])]
         for tags in tagsets:
-            drv, err = vlib.build_driver(comp.name, tags, comp.overlay)
+            perr = comp.prepare()
+            if perr:
+                st["broken"].append(perr)
+                continue
+            drv, err = vlib.build_driver(comp.name, tags, comp.overlay, suffix=comp.suffix)
             if drv is None:
                 st["broken"].append("driver %s (%s) does not build against the current source: %s" % (comp.name, ",".join(tags), err[-800:]))
                 continue
             with_model = comp.with_model and st["model_ok"]
             batches = []
             cdir = os.path.join(vlib.VERIF, "corpus", prop)
-            for f in sorted(glob.glob(os.path.join(cdir, comp.name + "*.ops"))):
+            for f in sorted(glob.glob(os.path.join(cdir, comp.name + comp.suffix + "-*.ops"))):
                 batches.append(("corpus:" + os.path.basename(f), open(f).read()))
             for ga in comp.gen_args(tier, seed):
                 p = vlib.run([drv, "-mode", "gen"] + ga, env=vlib.GOENV)
@@ -109,7 +118,10 @@ def run(prop, components, tier, lean_targets=(), level_text="", assumptions=(), 
                     continue
                 seen_sig[sig0] = seen_sig.get(sig0, 0) + 1
                 want_oracle = bool(cr.oracle)
-                pred = (lambda r: bool(r.oracle)) if want_oracle else (lambda r: r.first_diff is not None)
+                def osig(msgs):
+                    return set(re.sub(r"[0-9a-f]{2,}|\d+", "#", m)[:60] for _, m in msgs)
+                want_sig = osig(cr.oracle)
+                pred = (lambda r: bool(osig(r.oracle) & want_sig)) if want_oracle else (lambda r: r.first_diff is not None and not r.oracle)
                 ops = cr.ops
                 cut = (max(o for o, _ in cr.oracle) if want_oracle else cr.first_diff + 1)
                 ops = ops[:max(cut, 1)] if not want_oracle else ops[:max(min(o for o, _ in cr.oracle), 1)]
@@ -123,8 +135,8 @@ def run(prop, components, tier, lean_targets=(), level_text="", assumptions=(), 
                 if not mcr.failed:
                     mcr = cr
                     small = cr.ops
-                payload = dict(property=prop, component=comp.name, tags=list(tags), seed=seed, source=label,
-                               ops=small, impl=mcr.impl, model=mcr.model,
+                payload = dict(property=prop, component=comp.name + comp.suffix, tags=list(tags), seed=seed, source=label,
+                               ops=small, original_ops=cr.ops[:400], impl=mcr.impl, model=mcr.model,
                                oracle=["op %d: %s" % (o, m) for o, m in mcr.oracle],
                                first_model_disagreement=mcr.first_diff)
                 if mcr.oracle:
@@ -205,12 +217,13 @@ def do_replay(prop, components, path):
         print(json.dumps(payload, indent=1)[:3000])
         print("replay: this file names a broken proof obligation / tie; re-run the check to re-evaluate it")
         return 0
-    comp = [c for c in components if c.name == payload["component"]][0]
+    comp = [c for c in components if c.name + c.suffix == payload["component"]][0]
     with vlib.Lock():
         vlib.build_tools()
         vlib.regenerate()
         vlib.lake_build(["gnetmodel"])
-    drv, err = vlib.build_driver(comp.name, tuple(payload.get("tags", comp.tags)), comp.overlay)
+    comp.prepare()
+    drv, err = vlib.build_driver(comp.name, tuple(payload.get("tags", comp.tags)), comp.overlay, suffix=comp.suffix)
     if drv is None:
         print("driver does not build:", err)
         return 2
